@@ -140,6 +140,7 @@ func init() {
 				hc.between = []string{"none", "blind-raise", "blind-lower", "blind-ante", "blind-break", "blind-resume"}
 				hc.mid = []string{"none", "blind-raise", "blind-lower", "blind-ante", "blind-break"}
 				hc.late = []string{"none", "blind-raise", "blind-ante", "blind-break"}
+				hc.opened = []string{"none", "blind-raise", "blind-ante", "blind-break"}
 				hc.lines = []string{"foldout", "checkdown"}
 				hc.decks = []string{"asc"}
 			}
